@@ -217,6 +217,7 @@ class Executor:
         s.slow_query_s = 5.0; s.cur_where = ''
         s.merge_fns = []; s.blind = False; s.havoc_fns = []; s.memo_fns = []
         s.fork_sites = {} if os.environ.get('MIRSE_FORK_SITES') else None
+        s.block_hook = None; s.drop_hook = None; s.move_hook = None
         s._stack = []
 
     # ---- solver
@@ -736,6 +737,9 @@ class Executor:
         while True:
             fr = st.frames[-1]
             blk = fr.fn.blocks[fr.bb]
+            if fr.idx == 0 and s.block_hook is not None:
+                r_ = s.block_hook(st, fr)
+                if r_ is not None: return r_
             if fr.idx == 0:
                 c = fr.visits.get(fr.bb, 0) + 1
                 fr.visits[fr.bb] = c
@@ -749,12 +753,14 @@ class Executor:
             if k == 'assign':
                 dest_ty = fr.fn.locals.get(stt[1][0]) if not stt[1][1] else None
                 s.write_place(st, fr, stt[1], s.rvalue(st, fr, stt[2], dest_ty))
+                if s.move_hook is not None and stt[2][0] == 'use' and stt[2][1][0] == 'move': s.move_hook(st, fr, stt[2][1][1])
                 fr.idx += 1; continue
             if k == 'nop':
                 fr.idx += 1; continue
             if k == 'goto':
                 fr.bb = stt[1]; fr.idx = 0; continue
             if k == 'drop':
+                if s.drop_hook is not None: s.drop_hook(st, fr, stt[1])
                 fr.bb = stt[2]; fr.idx = 0; continue
             if k == 'return':
                 rv = fr.locals.get('_0', UNIT)
